@@ -11,6 +11,8 @@ pub enum Op {
   Q { q: Query, stop: bool },
   /// evaluate the same query `times` times in a row (hot key); only the last answer is recorded
   QRep { q: Query, times: u64 },
+  /// `times` evaluations cycling through `qs` (alternating arguments at full speed)
+  QAlt { qs: Vec<Query>, times: u64 },
   /// slot := a value of kind `kind` (index into handles::HKINDS) built from `args`
   HNew { slot: usize, kind: usize, args: Vec<i64> },
   /// slot := slot.next(n)
@@ -46,6 +48,7 @@ impl Op {
     match self {
       Op::Q { q, stop } => format!("{} {}", if *stop { "q!" } else { "q" }, q.key()),
       Op::QRep { q, times } => format!("q*{} {}", times, q.key()),
+      Op::QAlt { qs, times } => format!("qalt*{} {}", times, qs.iter().map(|q| q.key()).collect::<Vec<_>>().join(" | ")),
       Op::HNew { slot, kind, args } => {
         let mut s = format!("hnew {} {}", slot, crate::handles::HKINDS[*kind]);
         for a in args {
@@ -56,7 +59,7 @@ impl Op {
       Op::HNext { slot, n } => format!("hnext {} {}", slot, n),
       Op::HClone { from, to } => format!("hclone {} {}", from, to),
       Op::HGet { slot, g } => format!("hget {} {}", slot, g),
-      Op::HDay { from, to, variant } => format!("{} {} {}", if *variant == 0 { "hday" } else { "hday2" }, from, to),
+      Op::HDay { from, to, variant } => format!("{} {} {}", ["hday", "hday2", "hday3"][(*variant).min(2)], from, to),
       Op::HHour { from, to, k } => format!("hhour {} {} {}", from, to, k),
       Op::HCmp { a, b } => format!("hcmp {} {}", a, b),
     }
@@ -66,6 +69,17 @@ impl Op {
     let num = |s: &str| -> Result<i64, String> { s.parse::<i64>().map_err(|e| format!("bad number {}: {}", s, e)) };
     match tokens.first().copied() {
       Some("q") | Some("q!") => Ok(Op::Q { q: Query::parse(&tokens[1..])?, stop: tokens[0] == "q!" }),
+      Some(t) if t.starts_with("qalt*") => {
+        let times = t[5..].parse::<u64>().map_err(|_| "bad repeat count".to_string())?.max(1);
+        let mut qs = Vec::new();
+        for part in tokens[1..].split(|x| *x == "|") {
+          qs.push(Query::parse(part)?);
+        }
+        if qs.is_empty() {
+          return Err("qalt: no query".to_string());
+        }
+        Ok(Op::QAlt { qs, times })
+      }
       Some(t) if t.starts_with("q*") => Ok(Op::QRep { q: Query::parse(&tokens[1..])?, times: t[2..].parse::<u64>().map_err(|_| "bad repeat count".to_string())?.max(1) }),
       Some("hnew") => {
         if tokens.len() < 3 {
@@ -84,7 +98,7 @@ impl Op {
       }
       Some("hnext") if tokens.len() == 3 => Ok(Op::HNext { slot: (num(tokens[1])? as usize).min(SLOTS - 1), n: num(tokens[2])? }),
       Some("hclone") if tokens.len() == 3 => Ok(Op::HClone { from: (num(tokens[1])? as usize).min(SLOTS - 1), to: (num(tokens[2])? as usize).min(SLOTS - 1) }),
-      Some("hday") | Some("hday2") if tokens.len() == 3 => Ok(Op::HDay { from: (num(tokens[1])? as usize).min(SLOTS - 1), to: (num(tokens[2])? as usize).min(SLOTS - 1), variant: if tokens[0] == "hday" { 0 } else { 1 } }),
+      Some("hday") | Some("hday2") | Some("hday3") if tokens.len() == 3 => Ok(Op::HDay { from: (num(tokens[1])? as usize).min(SLOTS - 1), to: (num(tokens[2])? as usize).min(SLOTS - 1), variant: ["hday", "hday2", "hday3"].iter().position(|x| *x == tokens[0]).unwrap_or(0) }),
       Some("hhour") if tokens.len() == 4 => Ok(Op::HHour { from: (num(tokens[1])? as usize).min(SLOTS - 1), to: (num(tokens[2])? as usize).min(SLOTS - 1), k: (num(tokens[3])? as usize).min(12) }),
       Some("hcmp") if tokens.len() == 3 => Ok(Op::HCmp { a: (num(tokens[1])? as usize).min(SLOTS - 1), b: (num(tokens[2])? as usize).min(SLOTS - 1) }),
       Some("hget") if tokens.len() == 3 => Ok(Op::HGet { slot: (num(tokens[1])? as usize).min(SLOTS - 1), g: num(tokens[2])? }),
